@@ -29,6 +29,15 @@ abbrev Data := List (List Cell)
 /-- one `IndexedType` value: one component (s1, v) or three (s3) -/
 abbrev Val := List Comp
 
+/-- one build: masks of the two attribute sets, whether the harness spells them with the alternative classes, and
+    the communications that follow -/
+structure Ph where
+  S : Nat
+  sa : Bool
+  T : Nat
+  ta : Bool
+  rd : List Char
+
 structure Cfg where
   P : Nat
   two : List Bool
@@ -41,7 +50,7 @@ structure Cfg where
   add : Bool
   dt : Bool
   c1 : Bool
-  phases : List (Nat × Nat × List Char)   -- per build: S, T, the communications that follow
+  phases : List Ph   -- per build: the attribute sets and the communications that follow
 
 def strictNat? (s : String) (lo hi : Nat) : Option Nat :=
   let cs := s.toList
@@ -76,15 +85,16 @@ structure RankSt where
 instance : Inhabited RankSt := ⟨{ cont := { c0 := [], c1 := [], one := true } }⟩
 
 /-- a mask, optionally followed by `a` (alternative realisation of the same set in the harness) -/
-def mask? (s : String) : Option Nat :=
+def mask? (s : String) : Option (Nat × Bool) :=
   let cs := s.toList
-  let cs := if cs.getLast? == some 'a' then cs.dropLast else cs
-  strictNat? (String.ofList cs) 0 15
+  let alt := cs.getLast? == some 'a'
+  let cs := if alt then cs.dropLast else cs
+  (strictNat? (String.ofList cs) 0 15).map fun m => (m, alt)
 
 /-- `<rounds>`: items separated by `.`; a string over {f,b}, or `r<S>-<T>` / `n<S>-<T>` (build again) -/
-def parsePhases (S T : Nat) (rounds : String) : Option (List (Nat × Nat × List Char)) :=
+def parsePhases (S T : Nat × Bool) (rounds : String) : Option (List Ph) :=
   if rounds.isEmpty || rounds.length > 60 then none else
-  let step (acc : Option (List (Nat × Nat × List Char))) (item : String) : Option (List (Nat × Nat × List Char)) :=
+  let step (acc : Option (List Ph)) (item : String) : Option (List Ph) :=
     match acc with
     | none => none
     | some phs =>
@@ -96,18 +106,18 @@ def parsePhases (S T : Nat) (rounds : String) : Option (List (Nat × Nat × List
           match (String.ofList rest).splitOn "-" with
           | [a, b] =>
             match mask? a, mask? b with
-            | some s', some t' => some (phs ++ [(s', t', [])])
+            | some s', some t' => some (phs ++ [{ S := s'.1, sa := s'.2, T := t'.1, ta := t'.2, rd := [] }])
             | _, _ => none
           | _ => none
         else if cs.all (fun c => c == 'f' || c == 'b') then
           match phs.getLast? with
-          | some (s', t', rd) => some (phs.dropLast ++ [(s', t', rd ++ cs)])
+          | some ph => some (phs.dropLast ++ [{ ph with rd := ph.rd ++ cs }])
           | none => none
         else none
-  match (rounds.splitOn ".").foldl step (some [(S, T, [])]) with
+  match (rounds.splitOn ".").foldl step (some [{ S := S.1, sa := S.2, T := T.1, ta := T.2, rd := [] }]) with
   | none => none
   | some phs =>
-    let nComm := (phs.map fun p => p.2.2.length).sum
+    let nComm := (phs.map fun p => p.rd.length).sum
     if nComm == 0 || nComm > 8 || phs.length > 4 then none else some phs
 
 def gatherD (whole : Bool) (d : Data) (l j : Nat) : Val :=
@@ -184,7 +194,7 @@ def parseCfg (ws : List String) : Option Cfg :=
       | some (pay, vk, vbase), some add, some dt, some c1, some phases =>
         if dt && add then none else
         if pol == "cgs" && (dt || pay == 2) then none else
-        some { P := P, two := fl.map (· == '1'), ign := ign == 1, S := S, T := T, pay := pay, vk := vk, vbase := vbase, add := add, dt := dt,
+        some { P := P, two := fl.map (· == '1'), ign := ign == 1, S := S.1, T := T.1, pay := pay, vk := vk, vbase := vbase, add := add, dt := dt,
                c1 := c1, phases := phases }
       | _, _, _, _, _ => none
     | _, _, _, _ => none
@@ -205,12 +215,13 @@ def run (cfg : Cfg) (sets : Array (List Entry × List Entry)) : String :=
   let csOf (bs : List (List Nat)) (p : Nat) : Nat → Nat :=
     if cfg.pay == 2 then fun l => (bs.getD p []).getD l 1 else fun _ => 1
   let oneC (r : Nat) : Bool := cfg.c1 && !(cfg.two.getD r false)
-  let ifsOf (S T : Nat) : List IfMap := ranks.map fun p => interfaceOf cfg.ign (inMask S) (inMask T) sys p
+  -- the attribute sets are evaluated through the `contains` functions regenerated from enumset.hh
+  let ifsOf (ph : Ph) : List IfMap := ranks.map fun p => interfaceOf cfg.ign (maskSet ph.sa ph.S) (maskSet ph.ta ph.T) sys p
   -- is the derived-datatype variant free of overlapping receive buffers, in every phase?
-  let feasible := cfg.phases.all fun (S, T, rd) =>
-    let ifs := ifsOf S T
-    let useF := rd.contains 'f'
-    let useB := rd.contains 'b'
+  let feasible := cfg.phases.all fun ph =>
+    let ifs := ifsOf ph
+    let useF := ph.rd.contains 'f'
+    let useB := ph.rd.contains 'b'
     ranks.all fun r =>
       let m := ifs.getD r []
       let snd := m.flatMap (·.2.1.idx)
@@ -218,22 +229,22 @@ def run (cfg : Cfg) (sets : Array (List Entry × List Entry)) : String :=
       !(useF && hasDup rcv) && !(useB && hasDup snd) && !(oneC r && (useF || useB) && snd.any rcv.contains)
   let showD (c : Cont Data) : String :=
     "D " ++ showData c.c0 ++ (if c.one then "" else "|" ++ showData c.c1)
-  let S0 := cfg.S
+  let ph0 : Ph := cfg.phases.headD { S := cfg.S, sa := false, T := cfg.T, ta := false, rd := [] }
   let init : List RankSt := ranks.map fun r =>
     { cont := { c0 := mkData r 0 (bsS.getD r []), c1 := mkData r 1 (bsT.getD r []), one := oneC r },
-      out := ["S " ++ showList (selection (inMask S0) (sys.rank r).src)] }
+      out := ["S " ++ showList (selection (maskSet false ph0.S) (sys.rank r).src)] }
   -- the communicator objects before their first build
   let comm0 : List Comm := ranks.map fun p => buildComm sz (csOf bsS p) (csOf bsT p) []
   let fin : List RankSt :=
     if cfg.dt && !feasible then
       init.zipIdx.map fun (st, r) =>
-        { st with out := "skip" :: (st.out ++ [showIf ((ifsOf cfg.S cfg.T).getD r [])]) }
+        { st with out := "skip" :: (st.out ++ [showIf ((ifsOf ph0).getD r [])]) }
     else
     let res := cfg.phases.zipIdx.foldl (init := (init, comm0)) fun (acc : List RankSt × List Comm) (ph, k) =>
       let (sts, comms) := acc
-      let (S, T, rd) := ph
-      let ifs := ifsOf S T
-      let raw (p : Nat) : IfMap := rawInterfaceOf cfg.ign (inMask S) (inMask T) sys p
+      let rd := ph.rd
+      let ifs := ifsOf ph
+      let raw (p : Nat) : IfMap := rawInterfaceOf cfg.ign (maskSet ph.sa ph.S) (maskSet ph.ta ph.T) sys p
       -- `build` on the communicator objects as the previous phase left them; fresh buffers with arbitrary content
       let comms' : List Comm := ranks.map fun p =>
         (comms.getD p (buildComm sz (csOf bsS p) (csOf bsT p) [])).build sz (csOf bsS p) (csOf bsT p) (ifs.getD p [])
